@@ -162,6 +162,14 @@ func (i *interpreter) step(fr *frame) {
 	if i.path != nil {
 		i.path.steps++
 		if i.path.steps > i.path.ex.StepCap {
+			if i.env.hangGuard {
+				// the harness declared that the guarded calls must return: a call that
+				// uses up the whole step budget is reported as a panic of the target
+				// ("hang"); the native replay (test timeout) confirms or refutes it
+				i.env.hangGuard = false
+				i.path.steps = i.path.ex.StepCap - 200000
+				panic(targetPanic{iface{t: types.Typ[types.String], v: "hang: the call did not return within the step budget (" + fr.fn.String() + ")"}})
+			}
 			panic(pathEnd{"cap", "step cap exceeded in " + fr.fn.String()})
 		}
 	} else {
